@@ -151,4 +151,37 @@ def run (s : St) (ops : List Op) : St := ops.foldl step s
 def init (start end_ : Int) (threshold : Nat) (ext cap : Int) (onlyInc : Bool) (window : Int) : St :=
   { comp := ⟨start, end_, [], threshold, ext, cap, none, onlyInc, window⟩, parts := fun _ => none }
 
+/-! ## closing participant accounts (`close_participant`) -/
+
+/-- `close_participant`: the trader closes their own participant account; the guard is
+`now < start_time || now > end_time` (so `end_time` itself still belongs to the competition, exactly as in
+`is_ongoing`). The volume record disappears; the competition account — the board — is not touched. -/
+def close (s : St) (t : Nat) (now : Int) : Option St :=
+  if ¬ (now < s.comp.start ∨ now > s.comp.end_) then none else
+  match s.parts t with
+  | none => none
+  | some _ => some { s with parts := fun u => if u = t then none else s.parts u }
+
+/-- histories with closes. -/
+inductive Op2 where
+  | op (o : Op)
+  | close (t : Nat) (now : Int)
+
+def op2Now : Op2 → Int
+  | .op (.create _ now) => now
+  | .op (.trade _ now _ _ _ _ _) => now
+  | .close _ now => now
+
+def step2 (s : St) : Op2 → St
+  | .op o => step s o
+  | .close t now => (close s t now).getD s
+
+def run2 (s : St) (ops : List Op2) : St := ops.foldl step2 s
+
+/-- every instruction of the history runs at a clock at which the competition (with the end time as extended so far)
+is ongoing. -/
+def OngoingHist : St → List Op2 → Prop
+  | _, [] => True
+  | s, o :: rest => isOngoing s.comp (op2Now o) = true ∧ OngoingHist (step2 s o) rest
+
 end Gmx.Comp
